@@ -42,7 +42,7 @@ class CaseTimeout(BaseException):
     """A single case ran for more than CASE_TIMEOUT_S seconds (normal cases take milliseconds): the code under test hangs."""
 
 
-CASE_TIMEOUT_S = int(os.environ.get("VERIF_CASE_TIMEOUT_S", "90"))
+CASE_TIMEOUT_S = int(os.environ.get("VERIF_CASE_TIMEOUT_S", "60"))
 
 
 def _on_alarm(signum, frame):
@@ -203,6 +203,8 @@ def _set(obj, path, val):
 def minimise(mod, case, sig, max_runs=3000, deadline=None):
     """Greedy structural shrink keeping the same violation signature."""
     runs = 0
+    if sig == "hang":          # every probe would cost a full timeout
+        return case
 
     def fails(c):
         nonlocal runs
